@@ -348,6 +348,9 @@ SINGLES = ['(', ')', '((', '))', '()', 'and', 'AND', 'or', 'Or', 'not',
            ':', '@', '!', '@@', '!!', '@:', 'a:b:c', 'role', 'rule', 'http',
            'role:', 'rule:', "'a':a", "'a':b", 'a.b:c', 'And:x', 'not:x',
            '"x', 'x"', "'", '"', 'é', 'é:é', '%', 'x%', 'role:%(k)s',
+           # an opening parenthesis INSIDE the token, a closing one at its
+           # end: that one closes a group (none is open)
+           'x:(y)', 'is_admin:(1)', 'a:(b', 'x:((y)', 'x:(y))', 'a(:b)',
            # compatibility look-alikes of the special characters
            '\uff20', '\ufe6b', '\uff01', 'role\uff1aa', '\uff20\uff20',
            'role:\uff21', '\u2160:\u2160']
